@@ -119,20 +119,40 @@ func runC15(r *Run) {
 				on.Violation(fn, instrPos(ld), "closed not branched on", "Close does not branch on the closed flag")
 			} else {
 				ci := cis[0]
+				// every path that continues from the test with closed == true returns ErrClientClosed and does nothing else
+				kk := newKeyer()
+				key, pol := kk.condKey(ci.If.Cond)
 				n := 0
-				for _, ret := range returnsOf(fn) {
-					if ci.OnTrue.Dominates(ret.Block()) && len(ci.OnTrue.Preds) == 1 {
-						n++
-						if errClosed == nil || !loadsGlobal(ret.Results[0], errClosed) {
-							on.Violation(fn, instrPos(ret), "already-closed edge", "a second Close must return ErrClientClosed")
-						}
+				rep := map[ssa.Instruction]bool{}
+				q := &PathQuery{P: p, Fn: fn, From: ld, K: kk, InitAssign: map[string]bool{key: pol}}
+				q.Step = func(in ssa.Instruction, deferred bool, stt uint64, c *PathCtx) (uint64, bool) {
+					if rep[in] {
+						return stt, false
+					}
+					if in == st {
+						rep[in] = true
+						on.ViolationPath(fn, instrPos(in), "closed set on the wrong edge", "closed is set on the already-closed edge", c.Witness(fn, in))
+					}
+					if ifaceCallOnField(in, m.Collector, "Close") || ifaceCallOnField(in, m.Agent, "Close") || ifaceCallOnField(in, m.Conn, "Close") || isBuiltinCall(in, "close") {
+						rep[in] = true
+						on.ViolationPath(fn, instrPos(in), "already-closed edge does not return", "a second Close goes on to close everything again", c.Witness(fn, in))
+					}
+					return stt, false
+				}
+				q.AtReturn = func(ret *ssa.Return, stt uint64, c *PathCtx) {
+					n++
+					if rep[ret] {
+						return
+					}
+					v := c.Resolve(deref(ret.Results[0]))
+					if errClosed == nil || !loadsGlobal(v, errClosed) {
+						rep[ret] = true
+						on.ViolationPath(fn, instrPos(ret), "already-closed edge", "a second Close must return ErrClientClosed", c.Witness(fn, ret))
 					}
 				}
+				q.Run()
 				if n == 0 {
 					on.Violation(fn, instrPos(ci.If), "already-closed edge does not return", "a second Close goes on to close everything again")
-				}
-				if ci.OnTrue.Dominates(st.Block()) {
-					on.Violation(fn, instrPos(st), "closed set on the wrong edge", "closed is set on the already-closed edge")
 				}
 			}
 		}
